@@ -454,9 +454,10 @@ def classify(line, impl, why):
     if why.startswith("lax:v1-trailing:") and f and len(f) >= 5 and o.startswith("ok;"):
         return "C38-v1-trailing-garbage"
     if why.startswith("lax:v1-port:") and f and len(f) >= 5 and o.startswith("ok;"):
-        # digits with leading zeros, value in range
-        ports = [f[3], f[4]]
-        if len(f) == 5 and all(re.fullmatch(rb"[0-9]+", p) and int(p) <= 65535 for p in ports) and any(p != b"0" and p.startswith(b"0") for p in ports):
+        # digit runs with leading zeros, values in range (bytes after the destination port digits are the trailing-garbage finding)
+        m = re.match(rb"[0-9]+", f[4])
+        ports = [f[3], m.group(0) if m else b"x"]
+        if all(re.fullmatch(rb"[0-9]+", p) and int(p) <= 65535 for p in ports) and any(p != b"0" and p.startswith(b"0") for p in ports):
             return "C38-v1-port-leading-zeros"
         return None
     if why.startswith("valid:") and f and len(f) == 5 and f[0] == b"6" and "families-mismatch" in o:
